@@ -286,8 +286,13 @@ func main() {
 			return snap(plainTransformer.TransformDocument(&protocol.ResolutionModel{Doc: d}, protocol.TransformationInfo{"id": fmt.Sprintf("did:ion:EiD%d", i), "published": false}))
 		}},
 		{"canonicalize-deep", func(i int) string {
-			// documents nested thousands of levels (each within the limit of 10 000 on its own)
-			depth := 3000 + 500*(i%7)
+			// documents nested thousands of levels (each within the limit of 10 000 on its own); every
+			// eighth call, so that the goroutines meet in them at the same moments (a deep document costs
+			// time quadratic in its depth)
+			if i%8 != 0 {
+				return "shallow"
+			}
+			depth := 3000 + 500*((i/8)%7)
 			doc := strings.Repeat(`{"a":[`, depth/2) + fmt.Sprintf("%d", i) + strings.Repeat(`]}`, depth/2)
 			b, e := canonicalizer.MarshalCanonical([]byte(doc))
 			if e != nil {
